@@ -116,3 +116,58 @@ Theorem C09_alloc_prealloc_depth : forall p f ty (l : list byte) rcx,
   alloc_of (read_val_alloc true p f ty (mkS l rcx) 0) <= (1 + Z.of_nat f) * (2 * Z.of_nat (length l) + 1) + 1.
 Proof. exact alloc_sync_prealloc. Qed.
 Print Assumptions C09_alloc_prealloc_depth.
+
+(* ---- panic freedom as a proof, not by construction (Thrift/ProtoG.v, Proofs/GuardP.v) ----
+   The reader model above is total: [r_take] answers a short buffer with an error, so no reader CAN
+   produce Panic.  The Rust readers reach the same answer differently: a guard (assert_remaining!, a
+   length test, `if depth == 0`) and then an operation of bytes / of a debug build that PANICS when
+   its precondition fails (advance, copy_to_slice, split_to, chunk()[0], array index, usize `-`).
+   ProtoG.v models those operations as partial (Panic SOob / SOverflow) and every panic-capable leaf
+   of the in-memory readers and of the skippers as "guard, then partial operation"; a missing or
+   too weak guard would make one of the equalities below false. *)
+From PV Require Import Thrift.ProtoG Proofs.AsyncErrP Proofs.GuardP.
+
+(* the guarded leaves equal the total ones on EVERY input: every theorem about the total model is a
+   theorem about the guarded one *)
+Theorem C09_guarded_eq :
+  (forall n s, g_take n s = r_take n s) /\ (forall s, g_byte s = r_byte s) /\ (forall s, g_i8 s = r_i8 s) /\
+  (forall n s, g_split n s = r_split n s) /\ (forall n s, g_adv n s = adv n s) /\
+  (forall A (m : rm A) s, shrinks m -> g_via m s = via m s) /\
+  (forall maxsize buf, (maxsize <= arr_len)%nat -> g_read_var_u64 maxsize buf = read_var_u64 maxsize buf) /\
+  (forall p f d ty s, g_skip_val p f d ty s = skip_val p f d ty s) /\
+  (forall p f d ty s, g_askip_val p f d ty s = askip_val p f d ty s).
+Proof.
+  exact (conj g_take_eq (conj g_byte_eq (conj g_i8_eq (conj g_split_eq (conj g_adv_eq
+        (conj (fun A m s H => g_via_eq m s H) (conj (fun m b H => g_read_var_eq m b H) (conj g_skip_val_eq g_askip_val_eq)))))))).
+Qed.
+Print Assumptions C09_guarded_eq.
+
+(* ... and never panic, on any byte string and from any state (the varint processor for every
+   maxsize up to its array, i.e. every integer type: maxsizes_fit) *)
+Theorem C09_no_panic :
+  (forall n s, nopanic (g_take n s)) /\ (forall s, nopanic (g_byte s)) /\ (forall s, nopanic (g_i8 s)) /\
+  (forall n s, nopanic (g_split n s)) /\ (forall n s, nopanic (g_adv n s)) /\
+  (forall maxsize buf, (maxsize <= arr_len)%nat -> nopanic (g_read_var_u64 maxsize buf)) /\
+  (forall p f d ty s, (blen s < f)%nat -> nopanic (g_skip_val p f d ty s)) /\
+  (forall p f d ty s, npb s -> nopanic (g_askip_val p f d ty s)).
+Proof.
+  exact (conj g_take_np (conj g_byte_np (conj g_i8_np (conj g_split_np (conj g_adv_np
+        (conj g_read_var_np (conj g_skip_val_np g_askip_val_np))))))).
+Qed.
+Print Assumptions C09_no_panic.
+
+(* totality of the in-memory skippers on arbitrary bytes (the value readers: C09_total) *)
+Theorem C09_skip_no_panic : forall p f d ty s, (blen s < f)%nat -> forall sp, skip_val p f d ty s <> Panic sp.
+Proof. exact skip_val_np. Qed.
+Print Assumptions C09_skip_no_panic.
+
+(* the tie to the regenerated inventory: every site accounted as [Guarded fn _] names a model function
+   that has an entry in [guard_table], and that entry -- the equality of the guarded leaf with the
+   total function -- is proved.  The sentence in the account is commentary; this is the obligation. *)
+Theorem C09_site_guards :
+  Forall (fun sa => match snd sa with
+                    | Guarded fn _ => exists P : Prop, In (fn, P) guard_table /\ P
+                    | _ => True
+                    end) accounted.
+Proof. exact sites_guarded. Qed.
+Print Assumptions C09_site_guards.
